@@ -21,6 +21,8 @@ mod paths;
 pub use account::AccountId;
 // pub use crypto::*;
 pub use date_time::UtcDateTime;
+#[cfg(sos_verif)]
+pub use date_time::verif_clock;
 // pub use device::{DevicePublicKey, TrustedDevice};
 pub use encoding::{decode, encode};
 pub use error::{AuthenticationError, Error, ErrorExt, StorageError};
